@@ -26,7 +26,7 @@ TOPICS = ["a", "ab", "abc", "a.b", "a\x01", "\x01", "", "é", "\U0010ffff", "b",
 NUL_TOPICS = ["a\x00", "\x00", "a\x00b", "\x00a"]
 METAS = [None, "{}", '{"a":1}', '{"b":{"c":[1,2,{"d":null}]},"a":"x"}', '{"k":"' + "v" * 200 + '"}',
          '{"n":18446744073709551615,"f":1.5,"s":"\\u00e9\\n"}']
-CONTENTS = [None, b"hello", b"\xff\xfe\x00", b"z" * 9000]
+CONTENTS = [None, b"hello", b"", b"\xff\xfe\x00", b"z" * 9000]
 
 
 class Gen:
